@@ -419,7 +419,11 @@ def run_script(bus, script, groups, canaries, blast_spec=None, noread=(), strict
             exp_s = [k if k != "seen" else "seen#%d" % v[3] for k, v in exp_events]
             got_s = [k if k != "seen" else "seen#%d" % v[3] for k, v in got_events]
             extra_seen = [g for g in got_events if g[0] == "seen" and g not in exp_events]
-            if extra_seen:
+            extra_limit = [g for g in got_events if g[0] == "limit" and g not in exp_events]
+            if extra_limit:
+                problem("violation", "%s: the bus refused a request with LimitsExceeded (serials %s) although by the model the limit is not reached: a connection that has gone still "
+                        "occupies its slot (per-user / completed count, match rules)?  expected %s got %s" % (where, [g[1] for g in extra_limit][:4], exp_s[:12], got_s[:12]))
+            elif extra_seen:
                 problem("violation", "%s: a monitor was shown %d message(s) of a hostile sender that the model never dispatches (invalid, or after an invalid one): serials %s; expected %s got %s"
                         % (where, len(extra_seen), [g[1][3] for g in extra_seen][:6], exp_s[:12], got_s[:12]))
             else:
